@@ -201,6 +201,7 @@ type PDBSpec struct {
 //   Nominate{node} Mark{node} Unmark{node} Buffer{node,n}     in-memory marks through the real Cluster methods
 //   SetPod{pod fields} DeletePod{pod} SetPDB{pdb fields} AnnotateNode{node,dnd} DeleteClaim{node} SetConsolidatable{node,value}
 //                       environment changes (followed by the informer reconcile of the object)
+//   SetPool{value: pool, d: consolidateAfter s (-1 Never, -2 keep), method: policy ("" keep)}   NodePool edit + informer
 //   QueueReconcile      disruption.Queue.Reconcile for every command in the queue
 // Method / Candidates / Round / QueueReconcile accept `faults` (API calls of the step that fail).
 // During: environment steps executed when the clock advances *inside* the next Method/Round step
